@@ -44,6 +44,10 @@ def run_single(spec, mod, scen):
   return out
 
 
+class _StopUnit(BaseException):
+  """A watchdog-detected hang leaves live threads of the code under test behind: stop this unit, do not shrink in it."""
+
+
 def run_explore(spec, mod, scen):
   import hypothesis  # pylint: disable=g-import-not-at-top
   from hypothesis import given, settings, HealthCheck, Phase  # pylint: disable=g-import-not-at-top
@@ -83,6 +87,8 @@ def run_explore(spec, mod, scen):
       st['last_fail'] = (case, v.to_json())
       if st['t_first_fail'] is None:
         st['t_first_fail'] = time.time()
+      if v.kind == 'hang':
+        raise _StopUnit() from None
       raise
     for c in info.get('classes', ()):
       st['classes'][c] = st['classes'].get(c, 0) + 1
@@ -102,7 +108,7 @@ def run_explore(spec, mod, scen):
         continue
       try:
         execute(case)
-      except Violation:
+      except (Violation, _StopUnit):
         break
   else:
     phases = [Phase.explicit, Phase.generate, Phase.shrink]
@@ -119,7 +125,7 @@ def run_explore(spec, mod, scen):
 
     try:
       test()
-    except Violation:
+    except (Violation, _StopUnit):
       pass
     except hypothesis.errors.Flaky as e:  # nondeterministic scenario: keep the recorded failure
       if st['last_fail'] is None:
